@@ -748,21 +748,26 @@ where
       (σ.setTh t fun y => { y with ff := y.ff ++ f }).goto t (.nf true (match x.outer with | .unsub => 9 | .intoSingleFut => 10 | .intoMultiFut => 11 | _ => 6))
     else (teardownStart σ t r).setTh t fun y => { y with ff := y.ff ++ f }
 
-/-- the label-level step function -/
-def step (σ : St) : Label → St
-  | .call t o g v ng ns =>
-      let h_ := σ.hs g
-      if (σ.th t).pc ≠ .idle then σ else
-      -- a call needs a live handle nobody else is using (Rust ownership), fresh ids for what it creates
-      if !h_.alive || h_.busy then σ else
-      let needG := o = Outer.clone || o = Outer.addStream
-      let needS := o = Outer.addStream || o = Outer.intoMultiFut
-      if needG && ((σ.hs ng).used || ng = g) then σ else
-      if needS && σ.sused ns then σ else
-      let σ := if needS then { σ with sused := upd σ.sused ns true } else σ
-      let σ := σ.setHd g fun y => { y with busy := true }
-      let h_ := σ.hs g
-      let σ1 := σ.setTh t fun y => { y with g := g, v := v, outer := o, ng := ng, ns := ns, s := h_.stream, ff := [], pn := [] }
+/-- does the call need a fresh stream id -/
+def needStream (o : Outer) : Bool := o = Outer.addStream || o = Outer.intoMultiFut
+
+/-- a call needs a live handle nobody else is using (Rust ownership) and fresh ids for what it creates -/
+def callOk (σ : St) (t : Nat) (o : Outer) (g ng ns : Nat) : Bool :=
+  let h_ := σ.hs g
+  decide ((σ.th t).pc = .idle) && h_.alive && !h_.busy &&
+  !((o = Outer.clone || o = Outer.addStream) && ((σ.hs ng).used || ng = g)) &&
+  !(needStream o && σ.sused ns)
+
+/-- reserve the stream id, mark the handle busy, record the call's arguments in the thread -/
+def callPrep (σ : St) (t : Nat) (o : Outer) (g v ng ns : Nat) : St :=
+  let σa := if needStream o then { σ with sused := upd σ.sused ns true } else σ
+  let σb := σa.setHd g fun y => { y with busy := true }
+  σb.setTh t fun y => { y with g := g, v := v, outer := o, ng := ng, ns := ns, s := (σb.hs g).stream, ff := [], pn := [] }
+
+/-- jump to the first program point of the call -/
+def callEntry (σ1 : St) (t : Nat) (o : Outer) (g ng ns : Nat) : St :=
+  let σ := σ1
+  let h_ := σ1.hs g
       match o with
       | .trySend => σ1.goto t .s0
       | .startSend _ _ =>
@@ -790,6 +795,11 @@ def step (σ : St) : Label → St
       | .intoMultiFut => σ1.goto t .a1
       | .intoMulti => σ1.goto t (.ret .multi)
       | .none => σ
+
+/-- the label-level step function -/
+def step (σ : St) : Label → St
+  | .call t o g v ng ns =>
+      if callOk σ t o g ng ns then callEntry (callPrep σ t o g v ng ns) t o g ng ns else σ
   | .run t inp => (stepRun σ t inp).2
   | .retn t =>
       match (σ.th t).pc with
